@@ -29,7 +29,7 @@ from mc.ref import cbca as RC
 
 ID = "C11"
 LEVEL = "exploration"
-BUDGET = {"quick": 300, "thorough": 900}
+BUDGET = {"quick": 300, "thorough": 3600}
 CHUNK = 4
 RULE = (
     "cases = (shape, radiometry table, masked cells, window, subpix, interval) and inside each case the product "
